@@ -198,3 +198,35 @@ func FieldAccesses(fn *ssa.Function) []FieldAccess {
 	}
 	return out
 }
+
+// DeepFuncs returns fn, its nested closures, and the functions of fn's own
+// package that they call statically (with their closures), up to depth calls
+// away. Rules that look for a construct "in function F" use it so that
+// extracting part of F into a helper of the same package (or turning a closure
+// into a function) does not hide the construct.
+func DeepFuncs(fn *ssa.Function, depth int) []*ssa.Function {
+	seen := map[*ssa.Function]bool{}
+	var out []*ssa.Function
+	pkg := FuncPkgPath(fn)
+	var walk func(f *ssa.Function, d int)
+	walk = func(f *ssa.Function, d int) {
+		if f == nil || seen[f] || f.Blocks == nil {
+			return
+		}
+		seen[f] = true
+		out = append(out, f)
+		for _, a := range f.AnonFuncs {
+			walk(a, d)
+		}
+		if d <= 0 {
+			return
+		}
+		for _, ci := range Calls(f, false) {
+			if callee := ci.Common().StaticCallee(); callee != nil && FuncPkgPath(callee) == pkg {
+				walk(callee, d-1)
+			}
+		}
+	}
+	walk(fn, depth)
+	return out
+}
